@@ -30,10 +30,10 @@ pub uninterp spec fn raw_point(b: Seq<u8>) -> u64;          // the point a raw h
 #[verifier::external_body] pub fn vp_bytes_lt(a: &[u8], b: &[u8]) -> (r: bool) ensures r == (raw_point(a@) < raw_point(b@)) { unimplemented!() }
 #[verifier::external_body] pub fn vp_bytes_gt(a: &[u8], b: &[u8]) -> (r: bool) ensures r == (raw_point(a@) > raw_point(b@)) { unimplemented!() }
 
-#[derive(Clone, Copy)] pub enum RecordType { CNAME, DS, Other(u16) }
+#[derive(Clone, Copy)] pub enum RecordType { CNAME, DS, NS, SOA, Unknown(u16) }
 impl vstd::std_specs::cmp::PartialEqSpecImpl for RecordType { open spec fn obeys_eq_spec() -> bool { true } open spec fn eq_spec(&self, o: &RecordType) -> bool { *self == *o } }
 impl PartialEq for RecordType {
-    fn eq(&self, o: &RecordType) -> (r: bool) { match (*self, *o) { (RecordType::CNAME, RecordType::CNAME) => true, (RecordType::DS, RecordType::DS) => true, (RecordType::Other(a), RecordType::Other(b)) => a == b, _ => false } }
+    fn eq(&self, o: &RecordType) -> (r: bool) { match (*self, *o) { (RecordType::CNAME, RecordType::CNAME) => true, (RecordType::DS, RecordType::DS) => true, (RecordType::NS, RecordType::NS) => true, (RecordType::SOA, RecordType::SOA) => true, (RecordType::Unknown(a), RecordType::Unknown(b)) => a == b, _ => false } }
 }
 pub struct RecordTypeSet { pub vp: u64 }
 pub uninterp spec fn type_in(s: RecordTypeSet, t: RecordType) -> bool;
@@ -60,6 +60,11 @@ impl NSEC3 {
 //%end
 
 // -- RFC 5155 predicates --
+// RFC 5155 8.3: "the NSEC3 RR that has the closest encloser as the original owner name [must be] from the proper zone.
+// The DNAME type bit must not be set and the NS type bit may only be set if the SOA type bit is set."
+pub open spec fn improper_encloser(n: NSEC3) -> bool {
+    type_in(n.types, RecordType::Unknown(39)) || (type_in(n.types, RecordType::NS) && !type_in(n.types, RecordType::SOA))
+}
 spec fn matches(rec: Nsec3RecordPair, t: u64) -> bool { rec.base32_hashed_name.h == t }
 spec fn covers(rec: Nsec3RecordPair, t: u64) -> bool {
     let owner = rec.base32_hashed_name.h;
@@ -86,8 +91,10 @@ pub fn vp_any<'s, T, F: Fn(&'s T) -> bool>(s: &'s [T], f: F) -> (r: bool)
 
 //%fn crates/net/src/dnssec/nsec3.rs :: find_covering_record
 //%sub1 "nsec3s.iter().find(" => "vp_find(nsec3s, " # R-shim: slice iterator `find` -> shim specified through the closure's contract
-//%sub "target_hashed_name < record.nsec3_data.next_hashed_owner_name()" => "vp_bytes_lt(target_hashed_name, record.nsec3_data.next_hashed_owner_name())" # R-shim: PartialOrd on [u8] (order of the raw hashes)
-//%sub? "target_hashed_name > record.nsec3_data.next_hashed_owner_name()" => "vp_bytes_gt(target_hashed_name, record.nsec3_data.next_hashed_owner_name())" # R-shim: PartialOrd on [u8] (present only in the unrepaired source)
+//%sub? "target_hashed_name < record.nsec3_data.next_hashed_owner_name()" => "vp_bytes_lt(target_hashed_name, record.nsec3_data.next_hashed_owner_name())" # R-shim: PartialOrd on [u8] (order of the raw hashes)
+//%sub? "target_hashed_name <= record.nsec3_data.next_hashed_owner_name()" => "!vp_bytes_gt(target_hashed_name, record.nsec3_data.next_hashed_owner_name())" # R-shim (`<=`: not present in the current source; kept so that a changed operator is judged, not lost)
+//%sub? "target_hashed_name > record.nsec3_data.next_hashed_owner_name()" => "vp_bytes_gt(target_hashed_name, record.nsec3_data.next_hashed_owner_name())" # R-shim: PartialOrd on [u8] (the wraparound comparison of the current source)
+//%sub? "target_hashed_name >= record.nsec3_data.next_hashed_owner_name()" => "!vp_bytes_lt(target_hashed_name, record.nsec3_data.next_hashed_owner_name())" # R-shim (`>=`)
 //%mutant normal_case_upper_bound_dropped "record.base32_hashed_name < *target_base32_hashed_name && target_hashed_name < record.nsec3_data.next_hashed_owner_name()" => "record.base32_hashed_name < *target_base32_hashed_name"
 //%closure "|record|"
 |record: &&'a Nsec3RecordPair<'a>| -> (b: bool)
@@ -148,6 +155,7 @@ pub fn nsec3_yield<M: VpDisplay>(p: Proof, query: &Query, msg: M) -> (r: Proof) 
 pub uninterp spec fn hp(alg: Nsec3HashAlgorithm, salt: Seq<u8>, iterations: u16, n: Name) -> u64;
 impl<'a> Context<'a> {
     spec fn pt(&self, n: Name) -> u64 { hp(self.hash_algorithm, self.salt@, self.iterations, n) }
+    spec fn some_proper_match(&self, t: u64) -> bool { exists|i: int| 0 <= i < self.nsec3s@.len() && matches(self.nsec3s@[i], t) && !improper_encloser(*self.nsec3s@[i].nsec3_data) }
     spec fn some_matches(&self, t: u64) -> bool { exists|i: int| 0 <= i < self.nsec3s@.len() && matches(self.nsec3s@[i], t) }
     spec fn some_covers(&self, t: u64) -> bool { exists|i: int| 0 <= i < self.nsec3s@.len() && covers(self.nsec3s@[i], t) }
     // ancestors of the query name inside the zone (query name .. soa), as enumerated by encloser_candidates()
@@ -193,21 +201,27 @@ impl HashedNameInfo {
 //%end
 }
 
+//%fn crates/net/src/dnssec/nsec3.rs :: from_proper_zone
+//%contract
+    ensures r == !improper_encloser(*closest_encloser.nsec3_data)
+//%end
+
 // RFC 5155 section 8.4 (name error): the closest-encloser proof: a matching record for an ancestor `ce` of QNAME, a
 // covering record for the next closer name and a covering record for the wildcard `*.ce`
 spec fn nx_witness(cx: &Context<'_>, ce: Name, nc: Name) -> bool {
     cx.is_candidate(ce) && ce != cx.query.name && cx.is_candidate(nc) && parent_of(nc) == ce
-        && cx.some_matches(cx.pt(ce)) && cx.some_covers(cx.pt(nc)) && cx.some_covers(cx.pt(wildcard_at(ce)))
+        && cx.some_proper_match(cx.pt(ce)) && cx.some_covers(cx.pt(nc)) && cx.some_covers(cx.pt(wildcard_at(ce)))
 }
 spec fn nx_proof(cx: &Context<'_>) -> bool { exists|ce: Name, nc: Name| #[trigger] nx_witness(cx, ce, nc) }
 //%fn crates/net/src/dnssec/nsec3.rs :: validate_nxdomain_response
 //%sub1 "cx .nsec3s .iter() .any(|r| r.base32_hashed_name == base32_hashed_query_name)" => "vp_any(cx.nsec3s, |r: &Nsec3RecordPair| -> (b: bool) ensures b == matches(*r, base32_hashed_query_name.h) { r.base32_hashed_name == base32_hashed_query_name })" # R-shim + R-clo: slice iterator `any` -> shim specified through the (typed) closure's contract
 //%sub1 "Some(&cx.query.name.base_name()) == cx.soa" => "vp_opt_name_eq(Some(&cx.query.name.base_name()), cx.soa)" # R-shim: PartialEq on Option<&Name>
-//%mutant wildcard_not_required "(Some(_), Some(_), Some(_)) =>" => "(Some(_), Some(_), _) =>"
+//%mutant wildcard_not_required "(Some((_, closest_encloser)), Some(_), Some(_)) if" => "(Some((_, closest_encloser)), Some(_), _) if"
+//%mutant F11_closest_encloser_zone_not_checked "if from_proper_zone(closest_encloser) =>" => "if true =>"
 //%mutant matching_record_for_qname_ignored "return cx.proof(Proof::Bogus, \"NXDomain response with record for query name\");" => ""
 //%before "match (closest_encloser, next_closer, closest_encloser_wildcard)"
     proof {
-        if closest_encloser is Some && next_closer is Some && closest_encloser_wildcard is Some {
+        if closest_encloser is Some && next_closer is Some && closest_encloser_wildcard is Some && !improper_encloser(*closest_encloser.unwrap().1.nsec3_data) {
             assert(nx_witness(cx, closest_encloser.unwrap().0.name, next_closer.unwrap().0.name));
         }
     }
@@ -219,7 +233,7 @@ spec fn nx_proof(cx: &Context<'_>) -> bool { exists|ce: Name, nc: Name| #[trigge
 // RFC 5155 sections 8.5-8.7 (no data / wildcard no data / wildcard answer)
 spec fn wild_nodata_witness(query_type: RecordType, cx: &Context<'_>, ce: Name, nc: Name, w: int) -> bool {
     cx.is_candidate(ce) && ce != cx.query.name && cx.is_candidate(nc) && parent_of(nc) == ce
-        && cx.some_matches(cx.pt(ce)) && cx.some_covers(cx.pt(nc))
+        && cx.some_proper_match(cx.pt(ce)) && cx.some_covers(cx.pt(nc))
         && 0 <= w < cx.nsec3s@.len() && matches(cx.nsec3s@[w], cx.pt(wildcard_at(ce)))
         && !type_in(cx.nsec3s@[w].nsec3_data.types, query_type) && !type_in(cx.nsec3s@[w].nsec3_data.types, RecordType::CNAME)
 }
@@ -246,6 +260,7 @@ pub fn vp_is_some_and<T, F: FnOnce(T) -> bool>(o: Option<T>, f: F) -> (r: bool)
 //%sub "Some(&cx.query.name.base_name()) == cx.soa" => "vp_opt_name_eq(Some(&cx.query.name.base_name()), cx.soa)" # R-shim: PartialEq on Option<&Name>
 //%sub? "Some(&cx.query.name) == cx.soa" => "vp_opt_name_eq(Some(&cx.query.name), cx.soa)" # R-shim: PartialEq on Option<&Name> (present only in the unrepaired source)
 //%mutant F8_apex_nodata_without_proof "_ => (Proof::Bogus, \"no valid servicing wildcard proof\")," => "(None, None, None) if vp_opt_name_eq(Some(&cx.query.name), cx.soa) => (Proof::Secure, \"no servicing wildcard, but query name == SOA\"), _ => (Proof::Bogus, \"no valid servicing wildcard proof\"),"
+//%mutant F11_wildcard_nodata_encloser_zone_not_checked "if from_proper_zone(closest_encloser) &&" => "if true &&"
 //%mutant optout_for_any_type "query_type == RecordType::DS &&" => "true &&"
 //%mutant cname_bit_ignored "|| query_record .nsec3_data .type_set() .contains(RecordType::CNAME)" => ""
 //%before "match (closest_encloser, next_closer, closest_encloser_wildcard)"
@@ -253,7 +268,7 @@ pub fn vp_is_some_and<T, F: FnOnce(T) -> bool>(o: Option<T>, f: F) -> (r: bool)
                 if closest_encloser is Some && next_closer is Some && closest_encloser_wildcard is Some {
                     let w_rec = closest_encloser_wildcard.unwrap().1;
                     let w = choose|i: int| 0 <= i < cx.nsec3s@.len() && *w_rec == cx.nsec3s@[i];
-                    if !type_in(w_rec.nsec3_data.types, query_type) && !type_in(w_rec.nsec3_data.types, RecordType::CNAME) {
+                    if !type_in(w_rec.nsec3_data.types, query_type) && !type_in(w_rec.nsec3_data.types, RecordType::CNAME) && !improper_encloser(*closest_encloser.unwrap().1.nsec3_data) {
                         assert(wild_nodata_witness(query_type, cx, closest_encloser.unwrap().0.name, next_closer.unwrap().0.name, w));
                     }
                 }
@@ -291,7 +306,10 @@ pub open spec fn same_params(a: &NSEC3, b: &NSEC3) -> bool { a.hash_algorithm.0 
 //%fn crates/net/src/dnssec/nsec3.rs :: verify_nsec3
 //%sub1 "let mut pairs = Vec::with_capacity(nsec3s.len());" => "let mut pairs: Vec<Nsec3RecordPair> = Vec::with_capacity(nsec3s.len());" # R-ann: type ascription
 //%sub1 "soa.is_some_and(|soa| &base != soa)" => "vp_is_some_and(soa, |soa: &Name| -> (b: bool) ensures b == (base.id != soa.id) { base != *soa })" # R-shim + R-clo: Option::is_some_and; `&base != soa` compares the names
-//%sub1 "pairs.iter().any(|r| { r.nsec3_data.hash_algorithm() != hash_algorithm || r.nsec3_data.salt() != salt || r.nsec3_data.iterations() != iterations })" => "vp_any(pairs.as_slice(), |r: &Nsec3RecordPair| -> (b: bool) ensures b == !same_params(r.nsec3_data, first.nsec3_data) { r.nsec3_data.hash_algorithm() != hash_algorithm || vp_slice_ne(r.nsec3_data.salt(), salt) || r.nsec3_data.iterations() != iterations })" # R-shim + R-clo: slice iterator `any`; `!=` on [u8]
+//%sub1 "pairs.iter().any(" => "vp_any(pairs.as_slice(), " # R-shim: slice iterator `any`, specified through the closure's contract
+//%sub1 "r.nsec3_data.salt() != salt" => "vp_slice_ne(r.nsec3_data.salt(), salt)" # R-shim: `!=` on [u8]
+//%closure "|r|"
+|r: &Nsec3RecordPair| -> (b: bool) ensures b == !same_params(r.nsec3_data, first.nsec3_data)
 //%sub1 "answers.iter().find_map(|record| match &record.data { RData::DNSSEC(DNSSECRData::RRSIG(data)) => Some(data.input().num_labels), _ => None, })" => "vp_wildcard_num_labels(answers)" # R-shim: iterator find_map over the answer records (labels field of the first RRSIG), opaque
 //%mutant soft_limit_gives_secure "Proof::Insecure" => "Proof::Secure"
 //%mutant hard_limit_not_checked "if iterations > nsec3_hard_iteration_limit" => "if false"
